@@ -441,8 +441,9 @@ func runC01(c *Ctx) {
 	// (2) tables
 	checkPrefixTables(r, p, "table/length-prefix")
 	checkNumWidths(r, p, "table/number-width")
-	// (3) temp copies
+	// (3) temp copies, fresh decode targets
 	checkArrayTempCopies(r, p)
+	checkFreshTargetPerItem(r, p)
 	// (4) stream reads
 	checkNoBareRead(r, p)
 	// (5) determinism
@@ -767,6 +768,7 @@ func runC02(c *Ctx) {
 	checkDeserializerBounds(r, p)
 	checkNoSizeDrivenAlloc(r, p)
 	checkJSONAssertions(r, p)
+	checkReflectOnInputValues(r, p)
 	checkPrefixBoundedLoops(r, c, p)
 	checkDecodePanics(r, p)
 	checkPrefixTables(r, p, "switch/length-prefix-exhaustive")
@@ -781,7 +783,9 @@ type lenGuard struct {
 
 func remainingLenGuards(f *FuncCFG) []lenGuard {
 	info := f.Info
-	isRemLen := func(s string) bool { return strings.HasPrefix(s, "len(") && strings.Contains(s, ".src[") && strings.HasSuffix(s, ".offset:])") }
+	isRemLen := func(s string) bool {
+		return strings.HasPrefix(s, "len(") && strings.Contains(s, ".src[") && strings.HasSuffix(s, ".offset:])")
+	}
 	// variables holding the remaining length
 	lenVars := map[string]bool{}
 	inspectNoLit(f.Body, func(n ast.Node) bool {
@@ -1234,16 +1238,16 @@ func checkPrefixBoundedLoops(r *Reporter, c *Ctx, p *Prog) {
 }
 
 var allowedDecodePanics = map[string]string{
-	pkgSer + ".Serializer.writeSliceLength: unknown slice length type":        "programmer error: a SeriLengthPrefixType outside the declared constants (all four are handled)",
-	pkgSer + ".Deserializer.readSliceLength: unknown slice length type":       "programmer error: as above",
-	pkgSer + ".Serializer.sourceToSerializables: invalid source":             "programmer error: wrong Go type passed by the caller",
-	pkgSer + ".numSize: unsupported numSize type":                            "programmer error: destination type chosen by the caller",
-	pkgSer + ".Deserializer.ReadNum: unsupported ReadNum type":               "programmer error: destination type chosen by the caller",
-	pkgSer + ".Deserializer.readSerializablesIntoTarget: invalid target":     "programmer error: wrong Go type passed by the caller",
+	pkgSer + ".Serializer.writeSliceLength: unknown slice length type":         "programmer error: a SeriLengthPrefixType outside the declared constants (all four are handled)",
+	pkgSer + ".Deserializer.readSliceLength: unknown slice length type":        "programmer error: as above",
+	pkgSer + ".Serializer.sourceToSerializables: invalid source":               "programmer error: wrong Go type passed by the caller",
+	pkgSer + ".numSize: unsupported numSize type":                              "programmer error: destination type chosen by the caller",
+	pkgSer + ".Deserializer.ReadNum: unsupported ReadNum type":                 "programmer error: destination type chosen by the caller",
+	pkgSer + ".Deserializer.readSerializablesIntoTarget: invalid target":       "programmer error: wrong Go type passed by the caller",
 	pkgSer + ".Deserializer.readSerializableIntoTarget: target parameter must": "programmer error: wrong Go type passed by the caller",
-	pkgSer + ".Deserializer.CheckTypePrefix: invalid type prefix":            "programmer error: TypeDenotationType outside the declared constants",
-	pkgStream + ".readFixedSize: unknown slice length type":                  "programmer error: as above",
-	pkgStream + ".writeFixedSize: unknown slice length type":                 "programmer error: as above",
+	pkgSer + ".Deserializer.CheckTypePrefix: invalid type prefix":              "programmer error: TypeDenotationType outside the declared constants",
+	pkgStream + ".readFixedSize: unknown slice length type":                    "programmer error: as above",
+	pkgStream + ".writeFixedSize: unknown slice length type":                   "programmer error: as above",
 }
 
 func checkDecodePanics(r *Reporter, p *Prog) {
@@ -1602,4 +1606,175 @@ func firstIdentObj(info *types.Info, e ast.Expr) types.Object {
 		return o == nil
 	})
 	return o
+}
+
+// checkFreshTargetPerItem: every value appended to a decoded slice or inserted into a decoded
+// map is a variable created with reflect.New inside the per-item scope (the innermost enclosing
+// function literal or loop body) of the append. A decode target hoisted out of that scope is
+// shared by all items: nested slices/maps accumulate earlier items' entries, optional pointers
+// of earlier items leak into later ones.
+func checkFreshTargetPerItem(r *Reporter, p *Prog) {
+	info := p.Pkg(pkgSerix).TypesInfo
+	n := 0
+	for _, fd := range p.AllFuncDecls(pkgSerix) {
+		fn := p.Fset.Position(fd.Pos()).Filename
+		if fd.Body == nil || !(strings.HasSuffix(fn, "/decode.go") || strings.HasSuffix(fn, "/map_decode.go")) {
+			continue
+		}
+		fkey := funcKey(pkgSerix, fd)
+		var stack []ast.Node
+		ast.Inspect(fd.Body, func(nd ast.Node) bool {
+			if nd == nil {
+				stack = stack[:len(stack)-1]
+				return true
+			}
+			stack = append(stack, nd)
+			cl, ok := nd.(*ast.CallExpr)
+			if !ok {
+				return true
+			}
+			var elems []ast.Expr
+			switch k := exprKey(cl.Fun); {
+			case k == "reflect.Append" && len(cl.Args) >= 2:
+				elems = cl.Args[1:]
+			case strings.HasSuffix(k, ".SetMapIndex") && len(cl.Args) == 2:
+				elems = cl.Args
+			default:
+				return true
+			}
+			// innermost per-item scope
+			var scope ast.Node
+			for i := len(stack) - 2; i >= 0 && scope == nil; i-- {
+				switch s := stack[i].(type) {
+				case *ast.FuncLit:
+					scope = s.Body
+				case *ast.ForStmt:
+					scope = s.Body
+				case *ast.RangeStmt:
+					scope = s.Body
+				}
+			}
+			for _, e := range elems {
+				n++
+				key := fmt.Sprintf("%s in %s of %s", exprKey(e), exprKey(cl.Fun), fkey)
+				id, isId := ast.Unparen(e).(*ast.Ident)
+				obj := objOfIdent(info, e)
+				switch {
+				case scope == nil:
+					r.Fail("decode/fresh-target-per-item", key, p.posStr(cl.Pos()), "collection insert outside any per-item scope (loop body or item closure): cannot establish one fresh element per item")
+				case !isId || obj == nil:
+					r.Fail("decode/fresh-target-per-item", key, p.posStr(cl.Pos()), "inserted element is not a plain variable: cannot establish that it is fresh per item")
+				case obj.Pos() < scope.Pos() || obj.Pos() > scope.End():
+					r.Fail("decode/fresh-target-per-item", key, p.posStr(cl.Pos()), fmt.Sprintf("the decode target %s is created outside the per-item scope (at %s) and reused for every item: state decoded for earlier items (nested slices, maps, optional pointers) leaks into later ones", id.Name, p.posStr(obj.Pos())))
+				default:
+					// defined in scope: must come from reflect.New
+					fresh := false
+					ast.Inspect(scope, func(m ast.Node) bool {
+						if as, ok := m.(*ast.AssignStmt); ok && as.Tok == token.DEFINE {
+							for i, l := range as.Lhs {
+								if li, ok := l.(*ast.Ident); ok && info.Defs[li] == obj && i < len(as.Rhs) && strings.HasPrefix(exprKey(as.Rhs[i]), "reflect.New(") {
+									fresh = true
+								}
+							}
+						}
+						return true
+					})
+					if fresh {
+						r.Pass("decode/fresh-target-per-item", key, p.posStr(cl.Pos()), "created with reflect.New inside the per-item scope")
+					} else {
+						r.Fail("decode/fresh-target-per-item", key, p.posStr(cl.Pos()), "the inserted element is not created with reflect.New inside the per-item scope")
+					}
+				}
+			}
+			return true
+		})
+	}
+	if n < 6 {
+		r.Fail("decode/fresh-target-per-item", pkgSerix, "-", fmt.Sprintf("expected at least 6 inserted elements (2 slice appends, 2x2 map inserts), found %d", n))
+	}
+}
+
+// checkReflectOnInputValues: a reflect.Value built from input data (reflect.ValueOf(x) in the
+// decode files, directly or through a variable) has a dynamic kind and length chosen by the
+// input. Operations with panicking preconditions on it must be dominated by the matching test:
+// Len/Index/Slice by a Kind() comparison, Convert by CanConvert or a length comparison (a
+// slice-to-array conversion panics when the slice is shorter than the array).
+func checkReflectOnInputValues(r *Reporter, p *Prog) {
+	info := p.Pkg(pkgSerix).TypesInfo
+	needsKind := map[string]bool{"Len": true, "Index": true, "Slice": true, "Slice3": true, "MapIndex": true, "MapKeys": true, "MapRange": true, "Elem": true, "Field": true, "NumField": true, "SetLen": true, "Cap": true}
+	n := 0
+	for _, fd := range p.AllFuncDecls(pkgSerix) {
+		fn := p.Fset.Position(fd.Pos()).Filename
+		if fd.Body == nil || !(strings.HasSuffix(fn, "/decode.go") || strings.HasSuffix(fn, "/map_decode.go")) {
+			continue
+		}
+		fkey := funcKey(pkgSerix, fd)
+		// variables holding reflect.ValueOf(...)
+		vars := map[types.Object]bool{}
+		ast.Inspect(fd.Body, func(nd ast.Node) bool {
+			if as, ok := nd.(*ast.AssignStmt); ok && len(as.Lhs) == len(as.Rhs) {
+				for i, rhs := range as.Rhs {
+					if strings.HasPrefix(exprKey(rhs), "reflect.ValueOf(") {
+						if o := objOfIdent(info, as.Lhs[i]); o != nil {
+							vars[o] = true
+						}
+					}
+				}
+			}
+			return true
+		})
+		f := newFuncCFG(p, info, fd.Body, fkey)
+		for _, b := range f.G.Blocks {
+			if !b.Live {
+				continue
+			}
+			for i, nd := range b.Nodes {
+				pt := Point{b, i}
+				inspectNoLit(nd, func(m ast.Node) bool {
+					cl, ok := m.(*ast.CallExpr)
+					if !ok {
+						return true
+					}
+					se, ok := ast.Unparen(cl.Fun).(*ast.SelectorExpr)
+					if !ok {
+						return true
+					}
+					recvKey := exprKey(se.X)
+					isInput := strings.HasPrefix(recvKey, "reflect.ValueOf(") || vars[objOfIdent(info, se.X)]
+					if !isInput {
+						return true
+					}
+					op := se.Sel.Name
+					key := fmt.Sprintf("%s.%s in %s", recvKey, op, fkey)
+					switch {
+					case needsKind[op]:
+						n++
+						kindEdges := f.RelEdges(func(rel Rel) bool {
+							return rel.Op == "==" && (rel.L == recvKey+".Kind()" || rel.R == recvKey+".Kind()")
+						})
+						if w, only := f.OnlyThroughEdges(pt, kindEdges); only {
+							r.Pass("reflect/input-value-guarded", key, p.posStr(cl.Pos()), "dominated by a Kind() test of the same value")
+						} else {
+							r.Fail("reflect/input-value-guarded", key, p.posStr(cl.Pos()), "reflect."+op+" on a value built from input without a dominating Kind() test: an input of another shape panics", w...)
+						}
+					case op == "Convert":
+						n++
+						okEdges, _ := f.CondEdges(func(e ast.Expr) bool { return strings.HasPrefix(exprKey(e), recvKey+".CanConvert(") })
+						lenEdges := f.RelEdges(func(rel Rel) bool {
+							return strings.Contains(rel.L+" "+rel.R, "len(") || strings.Contains(rel.L+" "+rel.R, ".Len()")
+						})
+						if w, only := f.OnlyThroughEdges(pt, append(okEdges, lenEdges...)); only {
+							r.Pass("reflect/input-value-guarded", key, p.posStr(cl.Pos()), "dominated by CanConvert or a length comparison")
+						} else {
+							r.Fail("reflect/input-value-guarded", key, p.posStr(cl.Pos()), "reflect.Convert of a value built from input (a slice-to-array conversion panics when the input is shorter than the array) without a dominating CanConvert or length test", w...)
+						}
+					}
+					return true
+				})
+			}
+		}
+	}
+	if n < 2 {
+		r.Fail("reflect/input-value-guarded", pkgSerix, "-", fmt.Sprintf("expected at least the 2 tabled Len/Index uses on input values, found %d", n))
+	}
 }
